@@ -177,7 +177,10 @@ def correspondence(ctx):
         sd = {a: rng.choice([1, 2, 2, 3, 4, 5]) for a in axes}
         x = da.ones(tuple(nb), chunks=1)
         real = len(pr_chain(lowered(x.sum(axis=tuple(axes), split_every=sd))))
-        items.append((f"rd.tree_depth {f_list(nb)} {f_list(split_list(nd, sd))}", real, depth_rel))
+        # the expression stores the NORMALIZED split_every (dict values are floored at 2 since /repo 5a7f27d;
+        # that normalization itself is compared separately below, `rd.norm_dict`)
+        sdn = {a: max(v, 2) for a, v in sd.items()}
+        items.append((f"rd.tree_depth {f_list(nb)} {f_list(split_list(nd, sdn))}", real, depth_rel))
     correspond_rel(ctx, "tree-depth", items)
     ctx.notes["oracle.depth_float_slack_cases"] = slack[0]
 
@@ -684,7 +687,7 @@ def rand_case(ctx, red, rng):
 def search(ctx):
     rng = ctx.rng
     t_start = ctx.elapsed()
-    per = ctx.scale(100, 1500)
+    per = ctx.scale(180, 2500)
     # structured small sweep first: 1-d, every reduction x chunking with depth >= 3 x split_every 2 x ties
     for red in REDUCTIONS:
         for chunks in ([1] * 9, [2, 1, 3, 1, 2], [9]):
@@ -701,7 +704,7 @@ def search(ctx):
             ok = check_case(ctx, case)
             if ok and len(ctx.samples) < 6 and rng.random() < 0.01:
                 ctx.sample(case)
-            if ctx.elapsed() - t_start > ctx.scale(30, 420):
+            if ctx.elapsed() - t_start > ctx.scale(25, 420):
                 ctx.notes["search_truncated_at"] = red
                 return
 
@@ -805,7 +808,7 @@ def check_slice_case(ctx, case, count=True):
 def slice_search(ctx):
     rng = ctx.rng
     t_start = ctx.elapsed()
-    for _ in range(ctx.scale(1200, 15000)):
+    for _ in range(ctx.scale(2000, 25000)):
         red = rng.choice(SLICE_REDS)
         nd = rng.choice([2, 2, 3])
         shape = [rng.choice([1, 2, 3, 4, 5, 6]) for _ in range(nd)]
@@ -836,7 +839,7 @@ def slice_search(ctx):
                 continue
         case["index"] = enc_index(idx)
         check_slice_case(ctx, case)
-        if ctx.elapsed() - t_start > ctx.scale(12, 150):
+        if ctx.elapsed() - t_start > ctx.scale(10, 150):
             ctx.notes["slice_search_truncated"] = True
             return
 
@@ -889,8 +892,6 @@ def probe_known(ctx):
 
 def targeted(ctx):
     """Lift model/implementation disagreements to API-level reductions with the same block structure."""
-    import dask_array as da
-
     rng = ctx.rng
     tried = 0
     seen = set()
@@ -934,12 +935,15 @@ def targeted(ctx):
                             tried += 1
                             check_case(ctx, case)
         except Exception as e:
-            ctx.fail("reduction:targeted:raises", {"request": d["request"], "error": repr(e)[:300]}, "API-level replay of a disagreeing input raises")
+            # check_case maps every exception of the code under test to a failure itself; anything arriving here is
+            # a harness-side problem with this request and must not be reported as a property failure
+            ctx.notes["targeted_skipped"] = ctx.notes.get("targeted_skipped", 0) + 1
+            ctx.notes["targeted_skipped_last"] = f"{d['request'][:80]}: {e!r}"[:200]
     # accept_slice disagreements → sliced reductions
     if any(d["request"].startswith("rd.accept_slice") for d in ctx.disagreements):
-        for _ in range(300):
-            tried += 1
+        n0 = ctx.evaluations
         slice_search(ctx)
+        tried += ctx.evaluations - n0
     ctx.notes["targeted_search"] = f"{tried} API-level reductions around {len(ctx.disagreements)} disagreeing model inputs"
 
 
